@@ -385,6 +385,38 @@ fn special_cases(acc: &mut Acc) {
             Err(e) => acc.mismatch(Mismatch { idx: u64::MAX - 11, case: name.clone(), expected: "binary runs".into(), observed: e, payload: json!({"special": name}) }, None),
         }
     }
+    // output-size ladder: what a program displays arrives complete and in order whatever its
+    // size and line structure - sizes around the usual buffer boundaries (2^k - 1, 2^k, 2^k + 1)
+    let mut sizes: Vec<usize> = vec![1, 2, 3, 100, 1000, 3000, 10_000, 100_000];
+    for k in 6..=16 {
+        let p = 1usize << k;
+        sizes.extend([p - 1, p, p + 1]);
+    }
+    for k in sizes {
+        let body = "y".repeat(k);
+        for (shape, program, want) in [
+            ("one line", format!("(display \"{}\")", body), body.clone()),
+            ("a line break, then k characters", format!("(display \"ab\ncd{}\")", body), format!("ab\ncd{}", body)),
+            ("k characters, then a line break", format!("(display \"{}\nz\")", body), format!("{}\nz", body)),
+            ("two displays and a newline", format!("(display \"{}\")(newline)(display '({} . end))", body, body), format!("{}\n({} . end)", body, body)),
+        ] {
+            acc.evals += 1;
+            acc.count("output-size ladder", 1);
+            let _ = std::fs::create_dir_all(&dir);
+            if std::fs::write(dir.join("out.scm"), format!("{}\n{}\n", HEADER, program).as_bytes()).is_err() {
+                continue;
+            }
+            match run_binary("out.scm", &dir) {
+                Ok(r) => {
+                    if r.stdout != want || r.code != Some(0) || !r.stderr.is_empty() {
+                        let cut = |s: &str| if s.len() > 120 { format!("{}...({} bytes)...{}", &s[..50], s.len(), &s[s.len() - 50..]) } else { s.to_string() };
+                        acc.mismatch(Mismatch { idx: u64::MAX - 12, case: format!("[output of {} bytes, {}]", k, shape), expected: format!(": stdout {:?}, status 0, empty stderr", cut(&want)), observed: format!("exit {:?} stdout {:?} stderr {:?}", r.code, cut(&r.stdout), cut(&r.stderr)), payload: json!({"special": "output-size"}) }, None);
+                    }
+                }
+                Err(e) => acc.mismatch(Mismatch { idx: u64::MAX - 12, case: format!("[output of {} bytes, {}]", k, shape), expected: "binary runs".into(), observed: e, payload: json!({"special": "output-size"}) }, None),
+            }
+        }
+    }
     let _ = std::fs::remove_dir_all(&dir);
 }
 
@@ -430,7 +462,7 @@ pub fn run(ctx: &Ctx) -> i32 {
             tier: ctx.tier_name(),
             seed: ctx.seed,
             exhaustive: true,
-            rule: format!("every program file = import line + every sequence of <= {} forms from a menu of {} (displays of an integer / symbol / improper list / string, newline, definition, silent expression, a procedure that displays called twice, a multi-line form, 9 failing forms) x LF/CRLF x final newline or none x working directory = program directory or elsewhere x 5 rotating inter-form layouts (newline, blank lines, indentation, trailing comment + tab, full-line comment) (the longest programs get a rotating pair of the 8 variants), run through the built binary; every program without a failing form of <= 2 forms additionally ending in each of {} texts that cannot be read (stray unquote, unterminated string / list / vector, dangling quote, stray parenthesis, lone #, ...); plus missing file, directory as file, non-UTF-8 file; scale ladders: a failing form whose message quotes a value of every length k <= 300 (2-byte characters at both parities, lists, argument lists), the failing form on every line up to 302; distinct = distinct (stdout, status) observations", max_forms, MENU.len(), BROKEN_TAILS.len()),
+            rule: format!("every program file = import line + every sequence of <= {} forms from a menu of {} (displays of an integer / symbol / improper list / string, newline, definition, silent expression, a procedure that displays called twice, a multi-line form, 9 failing forms) x LF/CRLF x final newline or none x working directory = program directory or elsewhere x 5 rotating inter-form layouts (newline, blank lines, indentation, trailing comment + tab, full-line comment) (the longest programs get a rotating pair of the 8 variants), run through the built binary; every program without a failing form of <= 2 forms additionally ending in each of {} texts that cannot be read (stray unquote, unterminated string / list / vector, dangling quote, stray parenthesis, lone #, ...); plus missing file, directory as file, non-UTF-8 file; output-size ladder: displays of 1 .. 100000 characters around every power of two up to 65537, with and without line breaks, arrive complete; scale ladders: a failing form whose message quotes a value of every length k <= 300 (2-byte characters at both parities, lists, argument lists), the failing form on every line up to 302; distinct = distinct (stdout, status) observations", max_forms, MENU.len(), BROKEN_TAILS.len()),
             bounds: json!({"programs": total, "max_forms": max_forms}),
             assumptions: vec!["refsem's printer for integers, symbols, strings and lists (where the output format is not in question)".into()],
             wall_s: ctx.elapsed(),
